@@ -36,7 +36,8 @@ PADS = {
     "Arel": ("aligned", 0, -2),       # terminal-relative: TERM[0] x (TERM[1] - 2)
     "Arel2": ("aligned", -5, 1),      # relative width only: (TERM[0] - 5) x 1
 }
-ARG_TAG = {"t1": 1, "t2": 2, "base": 0}
+# tm1 / tm2: hash(-1) == hash(-2) - unequal render args with equal hashes
+ARG_TAG = {"t1": 1, "t2": 2, "base": 0, "tm1": -1, "tm2": -2}
 GLYPHS = "abcdefghijklmnopqrstuvwxyzABCDEFGHIJKLMNOPQRSTUVWXYZ"
 
 
@@ -206,6 +207,11 @@ def lib():
         DYNAMIC = R.FrameDuration.DYNAMIC
 
         class DurR(ns.TextR):                # the duration setting shows in the output: glyphs shifted by dur_shift
+            _resolved = None                 # FrameCount.POSTPONED: what the postponed evaluation gives
+
+            def _get_frame_count_(self):
+                return self._resolved
+
             def _render_(self, render_data, render_args):
                 f = super()._render_(render_data, render_args)
                 d = render_data[R.Renderable].duration
@@ -220,6 +226,7 @@ def lib():
         _lib.update(L=L, ns=ns, R=R, P=P, RI=L.render.RenderIterator, Size=L.geometry.Size, Seek=R.Seek,
                     OtherR=OtherR, DurR=DurR,
                     args={"t1": R.RenderArgs(ns.TextR, ns.TextRArgs(1)), "t2": R.RenderArgs(ns.TextR, ns.TextRArgs(2)),
+                          "tm1": R.RenderArgs(ns.TextR, ns.TextRArgs(-1)), "tm2": R.RenderArgs(ns.TextR, ns.TextRArgs(-2)),
                           "base": R.RenderArgs(R.Renderable), "bad": R.RenderArgs(OtherR, OtherArgs(1))})
     return _lib
 
@@ -248,15 +255,23 @@ class Impl:
         R = lb["R"]
         n = cfg["n"]
         dur0 = R.FrameDuration.DYNAMIC if cfg["dur0"] == "DYN" else cfg["dur0"]
-        if isinstance(n, str):
-            r = lb["ns"].make(R.FrameCount.INDEFINITE, SIZE0, dur0, stream_len=int(n[1:]), cls=lb["DurR"])
-        else:
-            r = lb["ns"].make(n, SIZE0, dur0, cls=lb["DurR"])
-            r.seek(n - 1)                       # the renderable's own position must not matter
+        count = R.FrameCount.INDEFINITE if isinstance(n, str) else n
+        postponed = cfg.get("postponed")        # None | "read" | "unread": frame count evaluated lazily
+        r = lb["ns"].make(R.FrameCount.POSTPONED if postponed else count, SIZE0, dur0,
+                          stream_len=int(n[1:]) if isinstance(n, str) else 4, cls=lb["DurR"])
+        r._resolved = count
+        if postponed != "unread":
+            r.frame_count                        # (evaluates a postponed count)
+            if not isinstance(n, str):
+                r.seek(n - 1)                    # the renderable's own position must not matter
         self.r = r
         self.tell0 = r.tell()
-        self.it = lb["RI"](r, None, make_pad(cfg["pad0"]), cfg["loops"],
-                           cfg["cache"] if cache is None else cache)
+        cache = cfg["cache"] if cache is None else cache
+        if cfg.get("ctor") == "frd":             # the extension constructor, with data made by the renderable itself
+            self.it = lb["RI"]._from_render_data_(r, r._get_render_data_(iteration=True), None, make_pad(cfg["pad0"]),
+                                                  cfg["loops"], cache)
+        else:
+            self.it = lb["RI"](r, None, make_pad(cfg["pad0"]), cfg["loops"], cache)
 
     def apply(self, op):
         lb = lib()
@@ -383,12 +398,12 @@ PROFILES = {
     "dur": dict(durs=[1, 7, 10, "DYN", 0], pads=["E0", "Arel"], args=["bad"], sizes=[]),
     # terminal resizes between receptions of (equal) terminal-relative paddings
     "resize": dict(durs=[0], pads=["E0", "Arel", "Arel2"], args=["bad"], sizes=[(1, 1)], terms=[TERM, TERM2]),
-    "args": dict(durs=[0], pads=["E0", "E1010"], args=["t1", "t2", "base", "bad"], sizes=[]),
+    "args": dict(durs=[0], pads=["E0", "E1010"], args=["t1", "t2", "tm1", "tm2", "base", "bad"], sizes=[]),
     "size": dict(durs=[0], pads=["E1010", "A32"], args=["bad"], sizes=[(1, 1), (2, 1), (2, 2)]),
     # every cached profile offers at least two paddings that differ from each other (a padded frame stored in
     # the cache only shows after the padding changed to another one that pads)
     # ... and two that pad to the SAME size with different output (a memo keyed by the padded size)
-    "one": dict(durs=[0], pads=["E0", "E1010", "E2000", "A32"], args=["t1", "bad"], sizes=[]),
+    "one": dict(durs=[0], pads=["E0", "E1010", "E2000", "A32"], args=["tm1", "tm2", "bad"], sizes=[]),
     "pad": dict(durs=[0], pads=["E0", "E1010", "E2000", "A32", "Arel", "Arel2"], args=["bad"], sizes=[(1, 1)]),
 }
 
